@@ -79,3 +79,109 @@ Lemma hit_is_single k b i : i < List.length b -> nth i (hit_fn k b) 0%Qc = nth 0
 Proof. intros H. unfold hit_fn. rewrite (nth_map_lt (hit_one k) 0%Qc ([], 0%Z)) by exact H. reflexivity. Qed.
 Lemma rr_is_single k b i : i < List.length b -> nth i (rr_fn k b) 0%Qc = nth 0 (rr_fn k [nth i b ([], 0%Z)]) 0%Qc.
 Proof. intros H. unfold rr_fn. rewrite (nth_map_lt (rr_one k) 0%Qc ([], 0%Z)) by exact H. reflexivity. Qed.
+
+(* ==========================================================================================
+   3. ClickThroughRate / WeightedCalibration: task i = the single-task metric on row i
+   ========================================================================================== *)
+Local Open Scope Qc_scope.
+Lemma nth_map2 {X Y Z} (f : X -> Y -> Z) dx dy dz : forall a b i, (i < List.length a)%nat -> (i < List.length b)%nat ->
+  nth i (map2 f a b) dz = f (nth i a dx) (nth i b dy).
+Proof.
+  induction a as [|x a IH]; intros [|y b] i Ha Hb; cbn in Ha, Hb; try lia. destruct i; cbn [map2 nth]; [reflexivity|].
+  apply IH; lia.
+Qed.
+Lemma nth_fold_plus i : forall Ls a, Forall (fun L => (i < List.length L)%nat) Ls -> (i < List.length a)%nat ->
+  (i < List.length (fold_left (map2 Qcplus) Ls a))%nat /\
+  nth i (fold_left (map2 Qcplus) Ls a) 0 = fold_left Qcplus (map (fun L => nth i L 0) Ls) (nth i a 0).
+Proof.
+  induction Ls as [|L Ls IH]; intros a HL Ha; cbn [fold_left map]; [split; [exact Ha|reflexivity]|].
+  inversion HL as [|? ? H1 H2]; subst.
+  assert (Hm : (i < List.length (map2 Qcplus a L))%nat) by (rewrite map2_length; lia).
+  destruct (IH _ H2 Hm) as [I1 I2]. split; [exact I1|]. rewrite I2, (nth_map2 Qcplus 0 0 0) by assumption. reflexivity.
+Qed.
+
+Section TwoVec.
+Variable B : Type.
+Variables F G : B -> list Qc.
+Definition beta2 (b : B) : nd := Arr [nvec (F b); nvec (G b)].
+Lemma fold_beta2 : forall bs a g,
+  fold_left (fun s b => nadd s (beta2 b)) bs (Arr [nvec a; nvec g]) =
+  Arr [nvec (fold_left (map2 Qcplus) (map F bs) a); nvec (fold_left (map2 Qcplus) (map G bs) g)].
+Proof.
+  induction bs as [|b bs IH]; intros a g; cbn [fold_left map]; [reflexivity|].
+  unfold beta2 at 2. rewrite nadd_pairvec. apply IH.
+Qed.
+End TwoVec.
+
+(* row i of a batch as a single-task batch *)
+Definition row_w (i : nat) (w : rk_w) : rk_w := match w with WSc w => WSc w | WTen ws => WTen [nth i ws []] end.
+Definition ctr_row (i : nat) (b : ctr_batch) : ctr_batch := ([nth i (fst b) []], row_w i (snd b)).
+Lemma wdot_row i w xs : wdot (row_w i w) 0 xs = wdot w i xs.
+Proof. destruct w; reflexivity. Qed.
+Lemma wtotal_row i w xs : wtotal (row_w i w) 0 xs = wtotal w i xs.
+Proof. destruct w; reflexivity. Qed.
+Lemma nth_mapi_Q (h : nat -> list Qc -> Qc) rows i : (i < List.length rows)%nat -> nth i (mapi h rows) 0 = h i (nth i rows []).
+Proof. intros H. apply (nth_mapi h 0 []). exact H. Qed.
+
+Definition ctr_sums (nt : nat) (bs : list ctr_batch) : list Qc * list Qc :=
+  (fold_left (map2 Qcplus) (map (fun b => mapi (wdot (snd b)) (fst b)) bs) (repeat 0 nt),
+   fold_left (map2 Qcplus) (map (fun b => mapi (wtotal (snd b)) (fst b)) bs) (repeat 0 nt)).
+Lemma ctr_state nt bs : fold_left (upd ctr_metric nt) bs (init ctr_metric nt) =
+  Arr [nvec (fst (ctr_sums nt bs)); nvec (snd (ctr_sums nt bs))].
+Proof.
+  change (upd ctr_metric nt) with (fun s b => nadd s (beta2 ctr_batch (fun b => mapi (wdot (snd b)) (fst b)) (fun b => mapi (wtotal (snd b)) (fst b)) b)).
+  change (init ctr_metric nt) with (Arr [nvec (repeat 0 nt); nvec (repeat 0 nt)]).
+  apply fold_beta2.
+Qed.
+Lemma nth_repeat0 i n : nth i (repeat 0%Qc n) 0%Qc = 0%Qc.
+Proof. revert i. induction n; intros [|i]; cbn; try reflexivity. apply IHn. Qed.
+Lemma rows_len nt b : ctr_valid nt b = true -> List.length (fst b) = nt.
+Proof. intros H. apply ctr_valid_parts in H as [H _]. apply rows_ok_uniform in H. tauto. Qed.
+(* the accumulated sums of task i *)
+Lemma ctr_sums_nth nt bs i : (i < nt)%nat -> Forall (fun b => ctr_valid nt b = true) bs ->
+  ((i < List.length (fst (ctr_sums nt bs)))%nat /\ (i < List.length (snd (ctr_sums nt bs)))%nat) /\
+  nth i (fst (ctr_sums nt bs)) 0 = fold_left Qcplus (map (fun b => wdot (snd b) i (nth i (fst b) [])) bs) 0 /\
+  nth i (snd (ctr_sums nt bs)) 0 = fold_left Qcplus (map (fun b => wtotal (snd b) i (nth i (fst b) [])) bs) 0.
+Proof.
+  intros Hi Hv. unfold ctr_sums. cbn [fst snd].
+  assert (HL : forall h : rk_w -> nat -> list Qc -> Qc,
+            Forall (fun L : list Qc => (i < List.length L)%nat) (map (fun b : ctr_batch => mapi (h (snd b)) (fst b)) bs)).
+  { intros h. apply Forall_forall. intros L HLin. apply in_map_iff in HLin as [b [<- Hb]]. rewrite mapi_length.
+    rewrite Forall_forall in Hv. rewrite (rows_len nt b (Hv b Hb)). exact Hi. }
+  assert (Hr : (i < List.length (repeat (0%Qc) nt))%nat) by (rewrite repeat_length; exact Hi).
+  destruct (nth_fold_plus i _ _ (HL wdot) Hr) as [A1 A2]. destruct (nth_fold_plus i _ _ (HL wtotal) Hr) as [B1 B2].
+  split; [split; assumption|].
+  split; (etransitivity; [first [exact A2 | exact B2]|]); rewrite map_map, nth_repeat0; f_equal; apply map_ext_in; intros b Hb;
+    apply nth_mapi_Q; rewrite Forall_forall in Hv; rewrite (rows_len nt b (Hv b Hb)); exact Hi.
+Qed.
+Lemma rl_nth : forall (ws rows : list (list Qc)) i, List.length ws = List.length rows -> rl_ok ws rows = true ->
+  Nat.eqb (List.length (nth i ws [])) (List.length (nth i rows [])) = true.
+Proof.
+  induction ws as [|x ws IH]; intros [|r rows] i Hl Hr; cbn in Hl; try discriminate.
+  - destruct i; reflexivity.
+  - unfold rl_ok in Hr. cbn [combine forallb fst snd] in Hr. apply andb_prop in Hr as [H1 H2].
+    destruct i as [|i]; [exact H1|]. cbn [nth]. apply IH; [lia|exact H2].
+Qed.
+Lemma ctr_row_valid nt i b : ctr_valid nt b = true -> (i < nt)%nat -> ctr_valid 1%nat (ctr_row i b) = true.
+Proof.
+  intros Hv Hi. apply ctr_valid_parts in Hv as [_ Hw].
+  unfold ctr_valid, ctr_row, rows_ok. cbn [fst snd List.length Nat.eqb forallb andb]. rewrite Nat.eqb_refl. cbn [andb].
+  destruct (snd b) as [w|ws]; [reflexivity|]. cbn [row_w w_ok] in *. apply shape_eq_parts in Hw as [Hwl Hwr].
+  unfold shape_eq. cbn [List.length Nat.eqb combine forallb fst snd andb]. rewrite andb_true_r.
+  apply rl_nth; assumption.
+Qed.
+Theorem ctr_task_slice nt bs i : (i < nt)%nat -> Forall (fun b => ctr_valid nt b = true) bs ->
+  nth i (cmp ctr_metric nt (fold_left (upd ctr_metric nt) bs (init ctr_metric nt))) 0 =
+  nth 0%nat (cmp ctr_metric 1%nat (fold_left (upd ctr_metric 1%nat) (map (ctr_row i) bs) (init ctr_metric 1%nat))) 0.
+Proof.
+  intros Hi Hv.
+  assert (Hv1 : Forall (fun b => ctr_valid 1%nat b = true) (map (ctr_row i) bs)).
+  { apply Forall_forall. intros b Hb. apply in_map_iff in Hb as [b0 [<- Hb0]]. rewrite Forall_forall in Hv.
+    apply (ctr_row_valid nt); [apply Hv, Hb0|exact Hi]. }
+  rewrite !ctr_state. change (cmp ctr_metric nt) with (ctr_gamma nt). change (cmp ctr_metric 1%nat) with (ctr_gamma 1%nat).
+  unfold ctr_gamma, nget. cbn [narr nth]. rewrite !nlist_nvec.
+  destruct (ctr_sums_nth nt bs i Hi Hv) as [[L1 L2] [S1 S2]].
+  destruct (ctr_sums_nth 1%nat (map (ctr_row i) bs) 0%nat (Nat.lt_0_1) Hv1) as [[L1' L2'] [S1' S2']].
+  rewrite !(nth_map2 (ctr_ratio tiny64) 0 0 0) by assumption. rewrite S1, S2, S1', S2', !map_map.
+  f_equal; f_equal; apply map_ext; intros b; unfold ctr_row; cbn [fst snd nth]; [apply eq_sym, wdot_row|apply eq_sym, wtotal_row].
+Qed.
